@@ -381,7 +381,11 @@ func Finish(verifDir string, r *Result, tier string, seed int64, level string, r
 	}
 	b, _ := json.MarshalIndent(ev, "", " ")
 	_ = os.MkdirAll(filepath.Join(verifDir, "evidence"), 0o755)
-	if err := os.WriteFile(filepath.Join(verifDir, "evidence", r.Property+".json"), b, 0o644); err != nil {
+	evPath := filepath.Join(verifDir, "evidence", r.Property+".json")
+	if os.Getenv("VERIF_REPLAYING") != "" { // a replay must not clobber the evidence of the registered check
+		evPath = filepath.Join(replayDir, "evidence-"+r.Property+".json")
+	}
+	if err := os.WriteFile(evPath, b, 0o644); err != nil {
 		fmt.Fprintf(os.Stderr, "BROKEN: cannot write evidence: %v\n", err)
 		return 2
 	}
